@@ -19,7 +19,7 @@ from hypergraph.runners._shared.input_normalization import (
     ASYNC_RUN_RESERVED_OPTION_NAMES,
     normalize_inputs,
 )
-from hypergraph.runners._shared.types import ErrorHandling, GraphState, RunResult, RunStatus
+from hypergraph.runners._shared.types import ErrorHandling, GraphState, RunResult, RunStatus, _generate_run_id
 from hypergraph.runners._shared.validation import (
     resolve_runtime_selected,
     validate_inputs,
@@ -239,6 +239,19 @@ class SyncRunnerTemplate(BaseRunner, ABC):
         input_variations = list(generate_map_inputs(normalized_values, map_over_list, map_mode, clone))
         if not input_variations:
             return []
+        if error_handling == "raise":
+            # Every item is given the same input names: a call that run() would
+            # reject for the first item is rejected here, before anything is
+            # emitted. (In continue mode such an item is a FAILED result; the
+            # override policy itself is applied by each item's run.)
+            _validate_on_missing(on_missing)
+            validate_inputs(
+                graph,
+                input_variations[0],
+                entrypoint=entrypoint,
+                selected=resolve_runtime_selected(select, graph),
+                on_internal_override="error" if on_internal_override == "error" else "ignore",
+            )
 
         dispatcher = self._create_dispatcher(event_processors)
         map_run_id, map_span_id = self._emit_run_start_sync(
@@ -253,17 +266,28 @@ class SyncRunnerTemplate(BaseRunner, ABC):
         try:
             results = []
             for variation_inputs in input_variations:
-                result = self.run(
-                    graph,
-                    variation_inputs,
-                    select=select,
-                    on_missing=on_missing,
-                    on_internal_override=on_internal_override,
-                    entrypoint=entrypoint,
-                    error_handling="continue",
-                    event_processors=event_processors,
-                    _parent_span_id=map_span_id,
-                )
+                try:
+                    result = self.run(
+                        graph,
+                        variation_inputs,
+                        select=select,
+                        on_missing=on_missing,
+                        on_internal_override=on_internal_override,
+                        entrypoint=entrypoint,
+                        error_handling="continue",
+                        event_processors=event_processors,
+                        _parent_span_id=map_span_id,
+                    )
+                except Exception as e:
+                    # Validation errors (e.g., MissingInputError) raise before
+                    # run()'s execution try block: a FAILED item, as under
+                    # AsyncRunner.map
+                    result = RunResult(
+                        values={},
+                        status=RunStatus.FAILED,
+                        run_id=_generate_run_id(),
+                        error=e,
+                    )
                 results.append(result)
                 if error_handling == "raise" and result.status == RunStatus.FAILED:
                     raise result.error  # type: ignore[misc]
